@@ -31,9 +31,9 @@ TNew ==
   /\ IsEv("new") /\ Adv
   /\ Construct(CfgOf(Rec[l]))
   \* any reason for which the clause list must be rejected is a correct report; "ok" only for a consistent list
-  /\ LET offs == Offences(CfgOf(Rec[l]).leaves, HasMutexApi) IN
+  /\ LET offs == Offences(CfgOf(Rec[l]).leaves, NoMutexFor) IN
        IF offs = {} THEN Rec[l].out = "ok" ELSE Rec[l].out \in { o.k : o \in offs }
-  /\ AssembleAgrees(CfgOf(Rec[l]).leaves, HasMutexApi)
+  /\ AssembleAgrees(CfgOf(Rec[l]).leaves, NoMutexFor)
 TCall ==
   /\ IsEv("call") /\ Adv
   /\ Call(NodeOf(Rec[l]))
